@@ -1,3 +1,4 @@
+import RactorModel.Lemmas.GenAuth
 import RactorModel.Lemmas.Session
 import RactorModel.Lemmas.MultiSession
 import RactorModel.Lemmas.Transitive
@@ -638,6 +639,55 @@ example :
      []] := by decide
 end
 
+
+
+/-! ### Translator tie (rs2lean): kernel-checked equivalence between the definitions that
+`extract/rs2lean.py` regenerates from the CURRENT Rust source on every run
+(`RactorModel/Generated/*.lean`) and the hand-written model functions the theorems above are
+about. A semantic change of the Rust function changes the generated text and these stop checking. -/
+
+section XlateTie
+open Generated.Auth GenAuth
+
+theorem generated_server_init_eq_model {D : Type} [DecidableEq D] (H : String → Nat → D) (fresh : Nat) :
+    absServer (ServerAuthenticationProcess.init H fresh) = (Auth.Server.init : Auth.Server D) := rfl
+
+theorem generated_client_init_eq_model {D : Type} [DecidableEq D] (H : String → Nat → D) (fresh : Nat) :
+    absClient (ClientAuthenticationProcess.init H fresh) = (Auth.Client.init : Auth.Client D) := rfl
+
+theorem generated_server_start_challenge_eq_model {D : Type} [DecidableEq D] (H : String → Nat → D) (cookie : String) (fresh : Nat)
+    (s : ServerAuthenticationProcess D) :
+    absServer (ServerAuthenticationProcess.start_challenge H fresh s cookie)
+      = Auth.Server.startChallenge H cookie fresh (absServer s) := by
+  cases s <;> rfl
+
+theorem generated_server_next_eq_model {D : Type} [DecidableEq D] (H : String → Nat → D) (cookie : String) (fresh : Nat)
+    (s : ServerAuthenticationProcess D) (m : AuthenticationMessage D) :
+    absServer (ServerAuthenticationProcess.next H fresh s m cookie)
+      = Auth.Server.next H cookie fresh (absServer s) (absMsg m) := by
+  rcases m with ⟨_ | m⟩
+  · cases s <;> rfl
+  · cases m <;> cases s <;>
+      simp [ServerAuthenticationProcess.next, ServerAuthenticationProcess.start_challenge, absMsg, apply_ite absServer, Auth.Server.next, Auth.Server.startChallenge] <;>
+      simp [absServer, absName] <;> (cases ‹ClientStatus D› with | mk b => cases b <;> simp)
+
+theorem generated_client_next_eq_model {D : Type} [DecidableEq D] (H : String → Nat → D) (cookie : String) (fresh : Nat)
+    (c : ClientAuthenticationProcess D) (m : AuthenticationMessage D) :
+    absClient (ClientAuthenticationProcess.next H fresh c m cookie)
+      = Auth.Client.next H cookie fresh (absClient c) (absMsg m) := by
+  rcases m with ⟨_ | m⟩
+  · cases c <;> rfl
+  · cases m <;> cases c <;>
+      simp [ClientAuthenticationProcess.next, absMsg, apply_ite absClient, Auth.Client.next] <;>
+      simp [absClient]
+
+/-- the abstraction functions are onto the model types: the equivalences above cover every model
+state and message (not only images of some generated values). -/
+theorem generated_auth_abstraction_onto {D : Type} (s : Auth.Server D) (c : Auth.Client D) (m : Auth.Msg D) :
+    (∃ s', absServer s' = s) ∧ (∃ c', absClient c' = c) ∧ (∃ m', absMsg m' = m) :=
+  ⟨⟨_, absServer_concServer s⟩, ⟨_, absClient_concClient c⟩, ⟨_, absMsg_concMsg m⟩⟩
+end XlateTie
+
 end C17
 
 #print axioms C17.fsm_close_absorbing
@@ -659,3 +709,10 @@ end C17
 #print axioms C17.delivery_only_to_advertised
 #print axioms C17.advertised_were_announced
 #print axioms C17.unauthenticated_session_is_inert
+-- rs2lean tie
+#print axioms C17.generated_server_init_eq_model
+#print axioms C17.generated_client_init_eq_model
+#print axioms C17.generated_server_start_challenge_eq_model
+#print axioms C17.generated_server_next_eq_model
+#print axioms C17.generated_client_next_eq_model
+#print axioms C17.generated_auth_abstraction_onto
